@@ -814,7 +814,7 @@ func (vc *VC) havocGhost(st *State, g string) {
 		vc.assume(fmt.Sprintf("(forall ((k Int)) (! (=> (< k %s) (= (select %s k) (select %s k))) :pattern ((select %s k))))", vc.get(st, "#outlen"), n, old, n))
 	}
 	switch g {
-	case "#outlen", "#wfails", "#evn", "#inpos":
+	case "#outlen", "#wfails", "#evn", "#inpos", "#rdcount":
 		vc.assume(sx("<=", old, n))
 	case "#vfail":
 		vc.assume(implies(old, n))
